@@ -165,6 +165,10 @@ def r161(ctx):
         dc = [(bi, c) for bi, c in db.calls() if c.callee and c.callee.name.endswith("::put")]
         ok = len(dc) == 1 and "Vec::<T>::new()" in render(dv.expr(dc[0][1].args[2]))
         ctx.ob("R16.1", ok, f"{be}/delete/is-empty-put", f"{be} delete is not put(key, empty)", where=f"{db.file}:{db.line}", sample="delete = put(key, vec![])")
+        # ... on every path: a delete is always recorded as a new version (all backends alike), never skipped
+        dvp = fnview(ctx, db)
+        R.must_pass_guard(ctx, "R16.1", db, R.success_blocks(dvp), lambda n: n.endswith("::put") and "KVVStore" in n,
+                          "put(key, empty)", "Ok return of delete", depth=0)
     ctx.ob("R16.1", len(set(map(str, summaries.values()))) == 1 and len(summaries) == 3, "siblings/put_with_version",
            f"the three backends do not enforce the same version rules: {summaries}", where="vls-persist/src/kvv", sample=summaries)
 
